@@ -54,6 +54,7 @@ class ARef:
 class ArrData:
     def __init__(self, shape, data, elem="real", owner="fresh", view_of=None):
         self.shape, self.data, self.elem, self.owner, self.view_of = tuple(shape), data, elem, owner, view_of
+        self.count_term = None      # ghost number of True entries for boolean masks of symbolic objects
 
     @property
     def rank(self):
@@ -596,6 +597,10 @@ class Exec:
             n = z3.simplify(lit(b))
             if z3.is_int_value(n):
                 return self.alloc_list(st, st.heap[a.sid].items * n.as_long())
+            items = st.heap[a.sid].items
+            if len(items) == 1 and z3.is_int(n):      # [x] * n  ->  constant sequence of symbolic length
+                x = items[0]
+                return SeqV(z3.If(n > 0, n, z3.IntVal(0)), lambda ex_, st_, i, _x=x: _x, owner="fresh", name="repeat")
             raise Undecided("list * symbolic int")
         if isinstance(a, LRef) and isinstance(b, LRef) and isinstance(op, ast.Add):
             return self.alloc_list(st, st.heap[a.sid].items + st.heap[b.sid].items)
